@@ -564,6 +564,9 @@ func checkC03(c *Ctx) {
 	r.Rule("C03.11", "the prefix transport identifies a peer only by the tag revealed from this connection's bytes", 1)
 	checkPrefixLookupKey(c, "C03.11")
 	checkAcceptToHandler(c, h)
+	// ---- C03.16 nothing a probe can trigger takes the station down: the candidate set the transports range over on every
+	// read is a copy made under the lock, never the tracking map itself (shared with C11.9 / C08.6)
+	checkLiveLookup(c, "C03.16", "every wrapping transport ranges over it on every read of an unidentified connection while ingest and the sweep write the same map: the runtime aborts the process ('concurrent map iteration and map write'), and every pending unauthenticated connection is hung up before its deadline")
 	// ---- C03.15 "writes no byte to the peer": what a handler classifies is what ITS peer sent - the buffer its Read fills
 	// is memory of this call (a buffer from a free list can be on the list twice, and then two handlers classify each
 	// other's bytes: a prober is matched with a client's tag and gets the covert's bytes)
